@@ -1069,6 +1069,9 @@ func (f *Frame) libCall(st *State, fn *types.Func, call *ast.CallExpr) ([]Term, 
 		vc.heapSet(st, domKey(ks), vc.define("dom", Store(dom, r, Select(dom, m))))
 		vc.heapSet(st, valKey(ks, vs), vc.define("val", Store(val, r, Select(val, m))))
 		return []Term{Ite(Eq(m, IntLit(0)), IntLit(0), r)}, true
+	case "slices.Clone":
+		// slices are values in kvc's model (array and length): a clone is the same value; nil stays nil
+		return []Term{f.expr(st, call.Args[0])}, true
 	case "slices.Contains":
 		s := f.expr(st, call.Args[0])
 		v := f.expr(st, call.Args[1])
